@@ -402,6 +402,15 @@ func (g *gm) stmt(s ast.Stmt) []string {
 			}
 		}
 		return []string{"(.expr " + g.expr(x.X) + ")"}
+	case *ast.GoStmt:
+		// `go recv.m(args)` / `go f(args)`: starting the goroutine is an EFFECT named "go:m" (what it does is not run here)
+		switch fn := x.Call.Fun.(type) {
+		case *ast.SelectorExpr:
+			return []string{"(.expr (.call " + strconv.Quote("go:"+fn.Sel.Name) + " " + g.args(x.Call) + "))"}
+		case *ast.Ident:
+			return []string{"(.expr (.call " + strconv.Quote("go:"+fn.Name) + " " + g.args(x.Call) + "))"}
+		}
+		return []string{"(.unsupported " + g.bad("go statement", x) + ")"}
 	case *ast.DeferStmt:
 		if g.droppable(x.Call) {
 			return []string{"(.skip " + gmStr(g.f.src(x)) + ")"}
@@ -789,6 +798,11 @@ func genGoMiniAll() []*leanFile {
 			"apiServer.publishInternal", "apiServer.PublishToSubject", "apiServer.SetCursor", "apiServer.FetchCursor",
 			"apiServer.JoinConsumerGroup", "apiServer.LeaveConsumerGroup"}},
 		[]string{sv + "api.go"})})
+	tl := "server/telemetry/"
+	out = append(out, &leanFile{name: "GoTelemetry", raw: genGoMini("GoTelemetry",
+		[]string{tl + "telemetry.go", sv + "config.go"},
+		map[string][]string{tl + "telemetry.go": {"Collector.Start"}, sv + "config.go": {"parseTelemetryConfig"}},
+		[]string{tl + "telemetry.go", sv + "config.go"})})
 	pr := "server/protocol/"
 	out = append(out, &leanFile{name: "GoEnvelope", raw: genGoMini("GoEnvelope",
 		[]string{pr + "envelope.go"},
